@@ -72,3 +72,10 @@ CLAIMS['C02'] = dict(category='proof', ref='5 Core E, 8 C02',
         "The client role is tied by the client correspondence runs (its theorems are under C12/C20).") +
         " PARTIAL: content isolation from ring-buffer reuse is a memory-aliasing fact the pure model cannot exhibit; it is covered by the "
         "correspondence (payloads compared byte for byte after intervening traffic), not by a theorem.")
+
+CLAIMS['C17'] = dict(category='exploration', ref='8 C17',
+    text="Concurrent deliveries on the real broker (2-8 unserialised publishers, packets that wrap the 16 KiB outgoing ring mid-packet) with a strict "
+         "reference parse of every byte the subscriber receives and per-publisher sequence numbers; plus the sequential broker correspondence for "
+         "ordering. Lean model of writeMessage as a small-step concurrent program under wmu (Model/WriteLock.lean); theorems (packets_atomic for all "
+         "schedules, per-publisher order on the broker model) under construction.",
+    technique="Lean 4 small-step model of the write lock + concurrent differential runs; proofs in progress")
